@@ -1365,7 +1365,7 @@ class Exec(Engine):
                     for m in c.modifies:
                         if m.startswith("ghost:FS") or m == "*":
                             self.havoc_target(m if m != "*" else "ghost:FS", mf)
-                    mid.events = list(mid.events) + [Event("fs", "inside_" + short, [], {}, line)]
+                    mid.events = list(mid.events) + [Event("fs", "inside_" + short, [a for a in list(args) + list(kwargs.values()) if isinstance(a, SV)], {}, line)]
                     for name, f in self.eval_clauses(c.crash, mf):
                         mid.assume(f)
                     mid.env = saved
